@@ -29,6 +29,12 @@ fn main() {
         "C12" => c12::run(&tier),
         "C13" => c13::run(&tier),
         "C14" => c14::run(&tier),
+        "C15" => c15::run(&tier),
+        "C16" => c16::run(&tier),
+        "C17" => c17::run(&tier),
+        "C18" => c18::run(&tier),
+        "C19" => c19::run(&tier),
+        "C20" => c20::run(&tier),
         _ => {
             eprintln!("unknown property {}", id);
             2
